@@ -5,8 +5,6 @@
 package vsync
 
 import (
-	"fmt"
-	"sort"
 	"sync"
 
 	"verif/mc/vsched"
@@ -141,38 +139,67 @@ type rlocker RWMutex
 func (r *rlocker) Lock()   { (*RWMutex)(r).RLock() }
 func (r *rlocker) Unlock() { (*RWMutex)(r).RUnlock() }
 
-// Map is the real sync.Map with a scheduling point before each operation.
-type Map struct{ m sync.Map }
+// Map is the real sync.Map with a scheduling point before each operation and
+// a canonical iteration order: Range visits keys in the order they were first
+// stored (sync.Map's own order is random, which would make executions
+// irreproducible).  Code whose result depends on the iteration order is
+// explored for this one order only.
+type Map struct {
+	m     sync.Map
+	mu    sync.Mutex
+	order []any
+}
+
+func (m *Map) note(k any, existed bool) {
+	if !existed {
+		m.mu.Lock()
+		m.order = append(m.order, k)
+		m.mu.Unlock()
+	}
+}
 
 func (m *Map) Load(k any) (any, bool) { vsched.Point("Map.Load"); return m.m.Load(k) }
-func (m *Map) Store(k, v any)         { vsched.Point("Map.Store"); m.m.Store(k, v) }
-func (m *Map) Delete(k any)           { vsched.Point("Map.Delete"); m.m.Delete(k) }
+func (m *Map) Store(k, v any) {
+	vsched.Point("Map.Store")
+	_, existed := m.m.Swap(k, v)
+	m.note(k, existed)
+}
+func (m *Map) Delete(k any) { vsched.Point("Map.Delete"); m.m.Delete(k) }
 func (m *Map) LoadOrStore(k, v any) (any, bool) {
 	vsched.Point("Map.LoadOrStore")
-	return m.m.LoadOrStore(k, v)
+	a, loaded := m.m.LoadOrStore(k, v)
+	m.note(k, loaded)
+	return a, loaded
 }
 func (m *Map) LoadAndDelete(k any) (any, bool) {
 	vsched.Point("Map.LoadAndDelete")
 	return m.m.LoadAndDelete(k)
 }
-// Range iterates in a canonical order (sorted by the keys' printed form):
-// sync.Map's own order is random, which would make executions irreproducible.
-// Code whose result depends on that order is explored for this one order only.
 func (m *Map) Range(f func(k, v any) bool) {
 	vsched.Point("Map.Range")
-	type kv struct {
-		s    string
-		k, v any
+	m.mu.Lock()
+	keys := m.order
+	// compact tombstones now and then
+	if len(keys) > 64 {
+		live := keys[:0:0]
+		for _, k := range keys {
+			if _, ok := m.m.Load(k); ok {
+				live = append(live, k)
+			}
+		}
+		m.order, keys = live, live
 	}
-	var all []kv
-	m.m.Range(func(k, v any) bool {
-		all = append(all, kv{fmt.Sprintf("%T:%020v", k, k), k, v})
-		return true
-	})
-	sort.Slice(all, func(i, j int) bool { return all[i].s < all[j].s })
-	for _, e := range all {
-		if !f(e.k, e.v) {
-			return
+	m.mu.Unlock()
+	seen := map[any]bool{}
+	for _, k := range keys {
+		if seen[k] {
+			continue
+		}
+		seen[k] = true
+		if v, ok := m.m.Load(k); ok {
+			if !f(k, v) {
+				return
+			}
 		}
 	}
 }
